@@ -237,8 +237,12 @@ async fn check_search(cx: &mut Ctx<'_>, a: &mut LocalAccount, live: &BTreeMap<Va
     let idx = index.read().await;
     let mut got: Vec<(VaultId, SecretId, String, bool)> = idx.documents().values().map(|d| (*d.folder_id(), *d.id(), d.meta().label().to_string(), d.meta().favorite())).collect();
     got.sort();
+    // kind and tags of every document
+    let mut extra: BTreeMap<(VaultId, SecretId), (u8, Vec<String>)> = BTreeMap::new();
+    for d in idx.documents().values() { let mut t: Vec<String> = d.meta().tags().iter().cloned().collect(); t.sort(); extra.insert((*d.folder_id(), *d.id()), ((*d.meta().kind()).into(), t)); }
     let doc_count = idx.statistics().count().clone();
     drop(idx);
+    let archive_id: Option<VaultId> = a.archive_folder().await.map(|s| *s.id());
     // expected: one document per live secret of every folder listed (archive included)
     let mut want: Vec<(VaultId, SecretId)> = vec![];
     for (f, m) in live { for k in m.keys() { want.push((*f, *k)); } }
@@ -254,7 +258,23 @@ async fn check_search(cx: &mut Ctx<'_>, a: &mut LocalAccount, live: &BTreeMap<Va
             if row.meta().label() != g.2 || row.meta().favorite() != g.3 {
                 cx.fail(&format!("c20-index-document-stale-label-{who}"), "document label / favourite differs from the secret's current meta data");
             }
+            if let Some((kind, tags)) = extra.get(&(g.0, g.1)) {
+                let k: u8 = (*row.meta().kind()).into();
+                let mut t: Vec<String> = row.meta().tags().iter().cloned().collect(); t.sort();
+                if &k != kind { cx.fail(&format!("c20-index-document-stale-kind-{who}"), "document kind differs from the secret's current kind"); }
+                if &t != tags { cx.fail(&format!("c20-index-document-stale-tags-{who}"), &format!("document tags {:?} differ from the secret's current tags {:?}", tags, t)); }
+            }
         }
+    }
+    // kind counters (documents outside the archive) and tag counters (all documents) equal a recount; zero entries are the
+    // same as absent ones
+    {
+        let mut kinds: BTreeMap<u8, usize> = BTreeMap::new(); let mut tags: BTreeMap<String, usize> = BTreeMap::new();
+        for ((f, _), (k, ts)) in &extra { if Some(*f) != archive_id { *kinds.entry(*k).or_insert(0) += 1; } for t in ts { *tags.entry(t.clone()).or_insert(0) += 1; } }
+        let have_k: BTreeMap<u8, usize> = doc_count.kinds().iter().filter(|(_, n)| **n > 0).map(|(k, n)| (*k, *n)).collect();
+        let have_t: BTreeMap<String, usize> = doc_count.tags().iter().filter(|(_, n)| **n > 0).map(|(k, n)| (k.clone(), *n)).collect();
+        if have_k != kinds { cx.fail(&format!("c20-kind-counters-differ-from-recount-{who}"), &format!("kind counters {:?}, recount {:?}", have_k, kinds)); }
+        if have_t != tags { cx.fail(&format!("c20-tag-counters-differ-from-recount-{who}"), &format!("tag counters {:?}, recount {:?}", have_t, tags)); }
     }
     // counters equal a recount
     let mut per_folder: BTreeMap<VaultId, usize> = BTreeMap::new();
@@ -285,6 +305,13 @@ pub async fn run_case(backend: &str, seed: u64, rep: &mut Report, ops: &mut Vec<
     }
     let default = { let a = w.devices[0].lock().await; *a.default_folder().await.unwrap().id() };
     let mut extra_folders: Vec<VaultId> = vec![];
+    // half of the single-device cases have an archive folder (kind counters skip its documents)
+    let mut archive: Option<VaultId> = None;
+    if !two && rng.chance(1, 2) {
+        let mut a = w.devices[0].lock().await;
+        let mut o = NewFolderOptions::new("Archive".to_string()); o.flags = Some(VaultFlags::ARCHIVE);
+        if let Ok(fc) = a.create_folder(o).await { let id = *fc.folder.id(); archive = Some(id); live.insert(id, BTreeMap::new()); let _ = a.initialize_search_index().await; cx.script.push(format!("archive folder {id}")); }
+    }
     let mut tok = Tok { ids: BTreeMap::new(), vals: BTreeMap::new() };
     // model session for the default folder
     let mut model_ok = true;
@@ -312,7 +339,85 @@ pub async fn run_case(backend: &str, seed: u64, rep: &mut Report, ops: &mut Vec<
         if std::env::var("HTRACE").is_ok() { eprintln!("step {step} kind {kind} script-last {:?}", cx.script.last()); }
         let mut model_line: Option<String> = None;
         let mut reload_now = false;
-        if kind < 14 && !two && folder == default && ((saved.is_none() && !in_folder.is_empty()) || (saved.is_some() && edits_since_save >= 1)) {
+        let special = rng.below(100);
+        let mut special_done = false;
+        if special < 9 && archive.is_some() {
+            // archive a secret / take one out of the archive
+            let arch = archive.unwrap();
+            let in_arch: Vec<SecretId> = live.get(&arch).map(|m| m.keys().copied().collect()).unwrap_or_default();
+            if !in_arch.is_empty() && rng.chance(1, 2) {
+                let id = *rng.pick(&in_arch);
+                if let Ok((row, _)) = a.read_secret(&id, Some(&arch)).await {
+                    let kind_ = *row.meta().kind();
+                    match a.unarchive(&id, &kind_, Default::default()).await {
+                        Ok((mv, dest)) => { let d = live.entry(arch).or_default().remove(&id).unwrap_or_default(); live.entry(*dest.id()).or_default().insert(mv.id, d.clone()); cx.script.push(format!("unarchive {id} -> {} as {}", dest.id(), mv.id)); cx.rep.count("op:unarchive");
+                            if dest.id() == &default { model_line = Some(format!("folder op create id={} v={}", tok.id(&mv.id), tok.val(&d))); } special_done = true; }
+                        Err(e) => { cx.fail("c01-unarchive-error", &e.to_string()); special_done = true; }
+                    }
+                }
+            } else if folder != arch && !in_folder.is_empty() {
+                let id = *rng.pick(&in_folder);
+                match a.archive(&folder, &id, Default::default()).await {
+                    Ok(mv) => { let d = live.entry(folder).or_default().remove(&id).unwrap_or_default(); live.entry(arch).or_default().insert(mv.id, d); cx.script.push(format!("archive {id} from {folder} as {}", mv.id)); cx.rep.count("op:archive");
+                        if folder == default { model_line = Some(format!("folder op delete id={}", tok.id(&id))); } special_done = true; }
+                    Err(e) => { cx.fail("c01-archive-error", &e.to_string()); special_done = true; }
+                }
+            }
+        } else if special < 16 && !in_folder.is_empty() {
+            // an update of the meta data only: other tags, the favourite flag toggled, or another label
+            let id = *rng.pick(&in_folder);
+            if let Ok((row, _)) = a.read_secret(&id, Some(&folder)).await {
+                let mut meta = row.meta().clone();
+                let what = rng.below(3);
+                match what {
+                    0 => { let mut t = std::collections::HashSet::new(); for _ in 0..rng.below(3) { t.insert(format!("tag{}", rng.below(4))); } meta.set_tags(t); }
+                    1 => { let f = meta.favorite(); meta.set_favorite(!f); }
+                    _ => { meta.set_label(format!("relabelled{}", rng.below(50))); }
+                }
+                let d = content_digest(&meta, row.secret()).await;
+                match a.update_secret(&id, meta, None, opts.clone()).await {
+                    Ok(_) => { live.entry(folder).or_default().insert(id, d.clone()); cx.script.push(format!("update-meta {id} {}", ["tags", "favourite", "label"][what as usize])); cx.rep.count(&format!("op:update-meta-{}", ["tags", "favourite", "label"][what as usize]));
+                        if folder == default { model_line = Some(format!("folder op update id={} v={}", tok.id(&id), tok.val(&d))); } }
+                    Err(e) => { cx.fail("c01-update-secret-error", &e.to_string()); }
+                }
+                special_done = true;
+            }
+        } else if special < 20 && !two && !extra_folders.is_empty() {
+            // forget a folder (in-memory removal): its documents must leave the index; signing in again brings it back
+            let with_docs: Vec<VaultId> = extra_folders.iter().copied().filter(|f| live.get(f).map(|m| !m.is_empty()).unwrap_or(false)).collect();
+            let f = if with_docs.is_empty() { *rng.pick(&extra_folders) } else { *rng.pick(&with_docs) };
+            if a.forget_folder(&f).await.unwrap_or(false) {
+                let mut without = live.clone(); without.remove(&f);
+                cx.script.push(format!("forget_folder {f}")); cx.rep.count("op:forget-folder");
+                check_search(&mut cx, &mut a, &without, "d0-after-forget-folder").await;
+                let listed = a.list_folders().await.map(|v| v.iter().any(|s| s.id() == &f)).unwrap_or(false);
+                if listed { cx.fail("c01-forgotten-folder-still-listed", "forget_folder left the folder in the listing"); }
+                let _ = a.sign_out().await;
+                match a.sign_in(&key).await { Ok(_) => { let _ = a.initialize_search_index().await; cx.script.push("signout-signin".into()) }, Err(e) => { cx.fail("c01-sign-in-after-sign-out-fails", &e.to_string()); return Ok(()); } }
+                special_done = true;
+            }
+        } else if special < 25 && !two && !extra_folders.is_empty() {
+            // restore a folder from (a prefix of) its own event records: the folder now is the replay of those records
+            use sos_core::events::EventLog;
+            let with_docs: Vec<VaultId> = extra_folders.iter().copied().filter(|f| live.get(f).map(|m| !m.is_empty()).unwrap_or(false)).collect();
+            let f = if with_docs.is_empty() { *rng.pick(&extra_folders) } else { *rng.pick(&with_docs) };
+            let recs: Vec<sos_core::events::EventRecord> = { let log = a.folder_log(&f).await.map_err(|e| anyhow::anyhow!(e.to_string()))?; let l = log.read().await; let d = l.diff_unchecked().await.map_err(|e| anyhow::anyhow!(e.to_string()))?; d.patch.records().to_vec() };
+            let keep = if recs.len() > 1 { rng.range(1, recs.len() as u64) as usize } else { recs.len() };
+            let before_listed = a.list_folders().await.map(|v| v.len()).unwrap_or(0);
+            match a.restore_folder(&f, recs[..keep].to_vec()).await {
+                Ok(_) => {
+                    cx.script.push(format!("restore_folder {f} from {keep} of {} records", recs.len())); cx.rep.count("op:restore-folder");
+                    match served(&mut a, &f).await { Ok(v) => { live.insert(f, v.secrets.into_iter().collect()); } Err(e) => cx.fail("c01-restored-folder-not-served", &e) }
+                    let after = a.list_folders().await.map(|v| v.len()).unwrap_or(0);
+                    let twice = a.list_folders().await.map(|v| v.iter().filter(|s| s.id() == &f).count()).unwrap_or(0);
+                    if after != before_listed || twice != 1 { cx.fail("c01-restored-folder-listed-twice", &format!("{before_listed} folders listed before restore_folder, {after} after; the restored folder appears {twice} times")); }
+                }
+                Err(e) => { cx.script.push(format!("restore_folder {f} -> error {e}")); cx.rep.count("op:restore-folder-error"); }
+            }
+            special_done = true;
+        }
+        if special_done {
+        } else if kind < 14 && !two && folder == default && ((saved.is_none() && !in_folder.is_empty()) || (saved.is_some() && edits_since_save >= 1)) {
             // save the log now, or force-merge the saved log (forced overwrite) if there is one
             use sos_core::events::EventLog;
             use sos_sync::{ForceMerge, MergeOutcome};
